@@ -64,6 +64,11 @@ def profiles_small(n):
     p["singletons"] = table(own[:n])
     # nine-byte deltas whose running sum crosses 2^63 in the middle of the list (unsigned vs signed comparisons)
     p["cross63"] = table([(RELATION, NS_M, 3 + r * ((1 << 60) + (1 << 58))) for r in range(n)])
+    # one-byte first value + six nine-byte deltas = 55 bytes, then a delta of exactly 2^63 (a ten-byte varint whose ninth
+    # byte is 0x80): it does not fit into the nine bytes left and has to start a new block
+    base = [(POINT, NS_A, 1)] + [(POINT, NS_A, 5 + (r - 1) * STEP56) for r in range(1, 8)]
+    jump = base[-1][2] + TWO63
+    p["jump63-at-55"] = table((base + [(POINT, NS_A, jump + (r - 8) * 3) for r in range(8, n)])[:n])
     if n >= 12:
         # ranks 1..8 fill a block exactly (1 + 7*9 = 64), then the namespace changes at the block boundary
         p["switch-at-exact-end"] = table([(POINT, NS_A, 0)] + [(POINT, NS_A, 5 + (r - 1) * STEP56) for r in range(1, 9)] +
